@@ -51,7 +51,7 @@ _H = None
 _BASE = None
 
 
-def custom_proof(tier):
+def _shape_obligations(tier):
     """what the z3 obligation hephaestus.run_parallel/post[normal-end-closes-and-joins] leaves to the shape of the code
     (syntactic, real AST): the closures handed to the batch loop never close / join / terminate the pool; terminate() occurs
     only in a handler of KeyboardInterrupt; the pool is not used as a context manager (Pool.__exit__ is terminate(), which
@@ -92,6 +92,15 @@ def custom_proof(tier):
                                       if any(isinstance(e, ast.Name) and e.id in pools for e in ast.walk(i.context_expr))
                                       or ast.unparse(i.context_expr).endswith('Pool')
                                       or (isinstance(i.context_expr, ast.Call) and ast.unparse(i.context_expr.func).endswith('Pool'))])
+    return out
+
+
+def custom_proof(tier):
+    """(a) shape obligations of run_parallel; (b) hephaestus.gen_program under its own contract (contracts/gen_program.py:
+    what the per-program record says -- verified as a second group because its ghost view of cli_args differs)"""
+    out = _shape_obligations(tier)
+    from pyvc import driver
+    out += driver.verify_group(['hephaestus.gen_program'], ['gen_program'])
     return out
 
 
